@@ -7,6 +7,7 @@ import (
 	"strings"
 
 	"github.com/beevik/etree"
+	"github.com/sdcio/data-server/pkg/datastore/target"
 	sdcpb "github.com/sdcio/sdc-protos/sdcpb"
 )
 
@@ -570,10 +571,30 @@ func c10Frags() (map[string]*Fragment, []string) {
 	return fr, []string{"fa", "fb", "fd", "fp", "fg", "fh", "mk4", "mk5", "ca1", "cpc", "fu1", "fu2", "fu3"}
 }
 
+// c10GNMIPhases: the production gnmiTarget (target.New) connected to an in-process gNMI server, once per encoding.
+func c10GNMIPhases() []*extraPhase {
+	var ps []*extraPhase
+	for _, enc := range []string{"proto", "json", "json_ietf"} {
+		enc := enc
+		ps = append(ps, &extraPhase{name: "gnmi_" + enc, checker: C10GNMIChecker{Encoding: enc},
+			names: []string{"fa", "fb", "fd", "fg", "fh", "mk2", "mk5", "ca1", "fu1", "fu2"}, depth: [2]int{2, 3},
+			initials: func() []*Initial { return CoreInitials()[:2] },
+			makeTarget: func(w *World) target.Target {
+				t, err := newGNMITee(w, enc)
+				if err != nil {
+					panic("harness: " + err.Error())
+				}
+				return t
+			}})
+	}
+	return ps
+}
+
 func init() {
 	registerE1("C10", &e1Config{checker: C10Checker{}, depth: [2]int{2, 3}, orphan: true, renderAll: true, frags: c10Frags, noPrune: true,
 		// second phase: the lists whose keys are declared in non-alphabetical order, kept apart because their (recorded) defect
 		// contaminates every later transition
 		deep: &deepPhase{names: []string{"mk1", "mk2", "fa"}, depth: [2]int{2, 3}, initials: func() []*Initial { return CoreInitials()[:1] }},
+		extra: c10GNMIPhases(),
 		extraAssume: []string{"the four TargetSource views are called on the same tree instance inside the recording device's Set; JSON and XML are interpreted by schema-guided walkers of the harness (XML namespaces resolved by etree's scoping rules)"}})
 }
